@@ -11,6 +11,7 @@ package main
 //   (race ID schema fresh|rebuilt NG SCOPE (ops (u V)|(v V)|(s V)|(c V) ...))
 //   (race ID units  (pkg NAME)|(new UNITS) NG (ops (pi "s")|(pf "s")|(fsi N)|(fli N)|(fsf F)|(flf F) ...))
 //   (race ID steps  NG PLUGIN (calls ...))                 the c11steps plugin and call syntax
+//   (race ID errs|structs ...), the (cs) operation                         see c13_race2.go
 //   observation: (t ID same N) | (t ID (diff (G I GOT WANT)...)) ; stderr carries "@@trial ID" /
 //   "@@end ID" markers around the race detector's reports.
 
@@ -73,7 +74,11 @@ func c13Out(f func() (*sx.Node, error)) (res string) {
 	return "(ok " + v.String() + ")"
 }
 
-func c13SchemaOp(s schema.Type, op *sx.Node) string {
+func c13SchemaOp(s schema.Type, partner schema.Type, op *sx.Node) string {
+	if op.Head() == "cs" {
+		// a THIRD PARTY's read-only use of s: another instance checks its compatibility against s
+		return c13Out(func() (*sx.Node, error) { return unit(), partner.ValidateCompatibility(s) })
+	}
 	v := valFromSx(op.List[1])
 	switch op.Head() {
 	case "u":
@@ -175,6 +180,9 @@ func runRaceTrial(p *sx.Node) *sx.Node {
 	id := p.List[1].Atom
 	fmt.Fprintf(os.Stderr, "@@trial %s\n", id)
 	defer fmt.Fprintf(os.Stderr, "@@end %s\n", id)
+	if r := runRaceTrial2(id, p); r != nil {
+		return r
+	}
 	switch p.List[2].Atom {
 	case "schema":
 		kind, ng, desc := p.List[3].Atom, int(p.List[4].Int()), p.List[5]
@@ -189,21 +197,35 @@ func runRaceTrial(p *sx.Node) *sx.Node {
 			}
 			return sc
 		}
+		needPartner := false
+		for _, op := range ops {
+			if op.Head() == "cs" {
+				needPartner = true
+			}
+		}
 		want := make([][]string, len(ops))
 		for rep := 0; rep < c13IsoReps; rep++ {
 			iso := build()
 			if iso == nil {
 				return sx.L(sx.A("t"), sx.A(id), sx.A("not-rebuildable"))
 			}
+			var isoPartner schema.Type
+			if needPartner {
+				isoPartner = buildScope(desc)
+			}
 			for i, op := range ops {
-				want[i] = append(want[i], c13SchemaOp(iso, op))
+				want[i] = append(want[i], c13SchemaOp(iso, isoPartner, op))
 			}
 		}
 		shared := build()
 		if shared == nil {
 			return sx.L(sx.A("t"), sx.A(id), sx.A("not-rebuildable"))
 		}
-		return c13Race(id, ng, len(ops), want, func(i int) string { return c13SchemaOp(shared, ops[i]) })
+		var partner schema.Type
+		if needPartner {
+			partner = buildScope(desc)
+		}
+		return c13Race(id, ng, len(ops), want, func(i int) string { return c13SchemaOp(shared, partner, ops[i]) })
 	case "units":
 		target, ng := p.List[3], int(p.List[4].Int())
 		ops := p.List[5].List[1:]
@@ -229,10 +251,24 @@ func runRaceTrial(p *sx.Node) *sx.Node {
 		// the isolated run: the same calls one after the other on a separately built plugin
 		seq := sx.L(sx.A("steps"), mkEnvEmpty(), p.List[4], sx.A("seq"), p.List[5])
 		conc := sx.L(sx.A("steps"), mkEnvEmpty(), p.List[4], sx.A("conc"), p.List[5])
-		want := runStepsCase(seq).String()
-		got := runStepsCase(conc).String()
+		wantN, gotN := runStepsCase(seq), runStepsCase(conc)
+		want, got := wantN.String(), gotN.String()
 		if got != want {
-			return sx.L(sx.A("t"), sx.A(id), sx.L(sx.A("diff"), sx.L(sx.I(0), sx.I(0), sx.S(got), sx.S(want))))
+			// name the part that differs: the initialiser counts, or the first call whose row differs
+			call := 0
+			if wantN.Head() == "r" && gotN.Head() == "r" && len(wantN.List) == 3 && len(gotN.List) == 3 {
+				if w, g := wantN.List[2].String(), gotN.List[2].String(); w != g {
+					want, got = "initialiser runs "+w, "initialiser runs "+g
+				} else if len(wantN.List[1].List) == len(gotN.List[1].List) {
+					for i := range wantN.List[1].List {
+						if w, g := wantN.List[1].List[i].String(), gotN.List[1].List[i].String(); w != g {
+							call, want, got = i, w, g
+							break
+						}
+					}
+				}
+			}
+			return sx.L(sx.A("t"), sx.A(id), sx.L(sx.A("diff"), sx.L(sx.I(0), sx.I(int64(call)), sx.S(got), sx.S(want))))
 		}
 		return sx.L(sx.A("t"), sx.A(id), sx.A("same"), sx.I(int64(len(p.List[5].List)-1)))
 	}
@@ -310,13 +346,26 @@ func init() {
 				case k == 2: // step calls and signals on a shared callable schema
 					var steps []c11StepD
 					var calls []*sx.Node
-					if r.Bool() {
-						steps = c11OrderSteps(true)
-						kinds := []string{"call", "call", "cancel", "pause", "cancel", "badcall", "badsig", "nosig"}
+					switch (i / 10) % 3 {
+					case 0:
+						steps = c11OrderSteps(true, r.Chance(30))
+						kinds := []string{"call", "call", "cancel", "pause", "cancel", "badcall", "badsig", "nosig", "dcall"}
 						for j := 0; j < 4+r.Intn(13); j++ {
 							calls = append(calls, c11OrderOp(pick(r, kinds), pick(r, c11Runs), pick(r, []string{"step1", "step1", "step2"})))
 						}
-					} else {
+					case 1:
+						// the step call and signals for the SAME new run id arrive together (each in its own goroutine,
+						// as the ATP server dispatches them); the initialiser takes a moment
+						steps = c11OrderSteps(true, r.Chance(30))
+						for _, run := range c11Runs[:1+r.Intn(3)] {
+							for _, st := range []string{"step1", "step2"}[:1+r.Intn(2)] {
+								calls = append(calls, c11OrderOp("call", run, st), c11OrderOp("cancel", run, st))
+								if r.Bool() {
+									calls = append(calls, c11OrderOp("pause", run, st))
+								}
+							}
+						}
+					default:
 						var depth int
 						steps, depth = c11GenPlugin(r)
 						calls = c11GenCalls(r, steps, depth, 4+r.Intn(8))
@@ -328,6 +377,16 @@ func init() {
 					cl := sx.L(sx.A("calls"))
 					cl.Append(calls...)
 					emit(sx.L(sx.A("race"), next(), sx.A("steps"), sx.I(int64(len(calls))), plugin, cl))
+				case k == 3: // c13_race2.go: error results, struct-mapped nests, third-party compatibility checks
+					ng := pick(r, []int{2, 4, 8, 16})
+					switch (i / 10) % 3 {
+					case 0:
+						emit(c13GenErrs(r, next(), ng))
+					case 1:
+						emit(c13GenStructs(r, next(), ng))
+					default:
+						emit(c13GenCompat(r, next(), ng))
+					}
 				default:
 					depth := 1 + r.Intn(2)
 					s := (&sgen{r: r}).scope(depth)
